@@ -150,6 +150,31 @@ def destPath (cwd : List Str) (dest : Str) : List Str :=
 def destPathOld (cwd : List Str) (dest : Str) : List Str :=
   if endsWithSlash dest then xvcPathNew [] dest.dropLast else xvcPathNew cwd dest
 
+/-! ## the destination guard of `xvc file copy` / `xvc file move` -/
+
+/-- the root-relative path one source is copied / moved to (`get_copy_source_dest_store` in
+    `file/src/copy/mod.rs`, `get_move_source_dest_store` in `file/src/mv/mod.rs`, without
+    `--name-only`): a destination ending in `/` is a directory, the destination path is
+    `dir_path.join(source_path)` with the FULL root-relative source path `src`; otherwise it is the
+    file `XvcPath::new(xvc_root, current_dir, destination)`. -/
+def copyDest (cwd : List Str) (dest : Str) (src : List Str) : List Str :=
+  if endsWithSlash dest then destPath cwd dest ++ src else destPath cwd dest
+
+/-- `dest_path.to_absolute_path(xvc_root)`: the absolute path (as components; `root` = the
+    components of the repository root) whose existence the guard "the destination may be a file Xvc
+    doesn't know about, don't overwrite it" tests with `symlink_metadata().is_ok()` -/
+def guardPath (root cwd : List Str) (dest : Str) (src : List Str) : List Str :=
+  root ++ copyDest cwd dest src
+
+/-- the guard of both functions for one source: a destination that is recorded is refused unless
+    `--force` (`entities_for(&dest_path)` is `Some`); a destination that is not recorded is refused
+    unless `--force` when something exists at `guardPath` (`onDisk` = `symlink_metadata().is_ok()`
+    on an absolute path).  `xvc file move` has no `--force`: `force = false`. -/
+def copyRefused (force : Bool) (recorded : List Str) (onDisk : List Str → Bool) (root cwd : List Str)
+    (dest : Str) (src : List Str) : Bool :=
+  if recorded.contains (joinComps (copyDest cwd dest src)) then !force
+  else !force && onDisk (guardPath root cwd dest src)
+
 /-! ## a small glob matcher (`fast_glob` on the pattern shapes xvc builds and the harness generates) -/
 
 /-- the rest of a path after its first `/` -/
